@@ -6,37 +6,56 @@ spec  : KMesh.tla  A. groups on reduced k coordinates, Grid.get_K_list (MC_KMesh
                       exclude_equiv_points for every processing order (MC_KMeshExcl)
                    C. tetrahedral grids: starting sets, split_tetra_volume / split_tetra_size as a state machine,
                       KpointBZtetra.divide (MC_KMeshTetra)
-bind  : spec -> code: TLC states replayed on the real PointGroup, Grid, KpointBZparallel.divide, exclude_equiv_points,
-        GridTetra / GridTrigonal, split_tetra_*, KpointBZtetra.divide (exact integer comparison);
-        code -> spec: seeded random calls of the same functions recorded and validated by TLC against KMeshRec.tla.
-(the refinement histories of run() in 1-D / 2-D are covered by RunGrid.tla, harness/props/rungrid.py)
+bind  : spec -> code: a seeded sample of the TLC states is replayed on the real PointGroup, Grid, KpointBZparallel.divide,
+        exclude_equiv_points, GridTetra / GridTrigonal, split_tetra_*, KpointBZtetra.divide.  The comparison is exact
+        (integers) but UP TO THE SYMMETRY THE PROPERTY ALLOWS: total weight per orbit / per class of equivalent points
+        (any order of the list, any representative, any survivor of a merge), canonical tetrahedra (any vertex order, any
+        list order); when the real tetrahedra differ from the specification's (another valid tie-break) the property
+        clauses are evaluated on the real list instead (TLC, KMeshRec).  The literal lists of today's code are compared
+        for information only.
+        code -> spec: seeded random calls of the same functions, chains of refinement steps and real 3-D run()
+        executions (hook events UpdateIntegral / Divide / Refine) recorded and validated by TLC against KMeshRec.tla.
+(the refinement histories of run() in 1-D / 2-D with restarts are covered by RunGrid.tla, harness/props/rungrid.py: C10-C12)
 """
 import copy
+import glob
+import os
 import random
+import shutil
+import signal
 import concurrent.futures as cf
 import numpy as np
 
 from .. import tlc, ftable
-from ..common import Report, MachineryError, seed
+from ..common import Report, MachineryError, seed, WORK, workdir
 from . import kmesh_world as W
 
 PROPS = {
     "C06": dict(level="model_checking",
-                technique="TLC exhaustive on KMesh.tla (Grid.get_K_list as its loops vs declarative orbit reduction for a catalogue of 47 "
-                          "(magnetic) point groups on cubic/tetragonal/orthorhombic/hexagonal lattices; divide + exclude_equiv_points in 3-D, the "
-                          "exclusion loops for every processing order; GridTetra/GridTrigonal splitting as a state machine with exact integer "
-                          "volumes and barycentric sign tests) + replay of TLC states on the real classes + TLC validation of recorded calls",
-                text="TLC checks, for every group of the catalogue and every grid size inside the constants, that the stars partition the grid, the "
-                     "retained weights are |star|/Ntot, non-negative and sum to one and that the images cover each grid point exactly once; for one "
-                     "refinement step (adpt_mesh 2 and 3, also through non-periodic directions) that the sub-cells tile the refined cell, the total "
-                     "weight is kept and merging of equivalent points is lossless for every processing order; for tetrahedral grids that the five "
-                     "starting tetrahedra tile the cell (trigonal wedge: positive non-overlapping volumes, weights sum to one), that every split keeps "
-                     "volume and weight with weight proportional to volume and children tiling the parent, and that the splitting loops terminate. "
-                     "The enumerated states are executed on the real code and compared exactly (integer coordinates, integer weights); seeded random "
-                     "calls are recorded and every clause of KMeshRec is evaluated on them by TLC.",
-                note="weights are compared as integers after verified rounding (units 1/Ntot, 1/(Ntot*prod(ndiv)^L), 1/WT); thresholds of the tetrahedral "
-                     "loops never coincide with an attained value (the loops do not terminate on equality); image tiling after a refinement step is "
-                     "demanded for groups of signed permutation matrices only (DESIGN.md 7.2, report)",
+                technique="TLC exhaustive on KMesh.tla (Grid.get_K_list as its loops vs declarative orbit reduction for a catalogue of 50 "
+                          "(magnetic) point groups on cubic/tetragonal/orthorhombic/hexagonal/bcc/fcc/rhombohedral lattices; divide + "
+                          "exclude_equiv_points in 3-D, the exclusion loops for every processing order; GridTetra/GridTrigonal splitting as a state "
+                          "machine with exact integer volumes and barycentric sign tests) + replay of a seeded sample of the TLC states on the real "
+                          "classes (comparison up to symmetry) + TLC validation of recorded calls, refinement chains and real 3-D run() executions",
+                text="TLC checks, for every group of the catalogue and every grid size inside the constants (quick: n <= 3 loops / n <= 4 table; "
+                     "thorough: 4 / 6), that the stars partition the grid, the retained weights are |star|/Ntot, non-negative and sum to one and that "
+                     "the images cover each grid point exactly once; for ONE refinement step of a level-0 list (adpt_mesh 2 and 3, also through "
+                     "non-periodic directions, one or two refined points; quick: 14 groups, thorough: all) that the sub-cells tile the refined cell, "
+                     "the total weight is kept and merging of equivalent points is lossless for every processing order; for tetrahedral grids that the "
+                     "five starting tetrahedra tile the cell (trigonal wedge, 60 and 120 degrees: positive non-overlapping volumes, weights sum to "
+                     "one), that every split keeps volume and weight with weight proportional to volume and children tiling the parent, and that the "
+                     "splitting loops terminate when no threshold equals an attained value. A seeded sample of the enumerated states (quick: 900 "
+                     "grids, 300 refinement steps, all tetrahedral runs, 150 splits) is executed on the real code and compared exactly in integers up "
+                     "to symmetry (weight per orbit / class, no orbit twice; image cells tile the zone for groups mapping cells to cells); seeded "
+                     "random calls, chains of 2 refinement steps and real 3-D run() executions with 2 adaptive iterations are recorded and every "
+                     "property clause of KMeshRec is evaluated on them by TLC.",
+                note="weights are compared as integers after verified rounding (units 1/Ntot, 1/(Ntot*prod(ndiv)^L), 1/WT; tolerance 1e-7, tetrahedra "
+                     "1e-6); literal equality with today's lists (order, representative, vertex order, tie-break, split counters, exception classes, "
+                     "rejection of grids the group does not map to themselves, thresholds reached) is information only (parts conformance_info, "
+                     "records_info); thresholds of the tetrahedral loops never coincide with an attained value in the models that carry the claim: at "
+                     "equality the loops of the code do not return, which is reported as observation_outside_C06 (termination is not part of C06); "
+                     "multi-level histories are covered by recorded chains / run() executions (2 levels), not by the exhaustive model (1 level); "
+                     "restarts and 1-D/2-D histories belong to C10-C12 (rungrid.py)",
                 ref="DESIGN.md 3.2"),
 }
 
@@ -46,6 +65,13 @@ DIV_INVS = ["InitialWeight", "TotalWeightKept", "NonNegative", "ParentsDead", "S
             "NoDuplicates", "NoMergeWithoutSymmetry", "ZoneTiled"]
 EXCL_INVS = ["WellFormed", "LoopEqualsDeclarative", "WeightKept", "Lossless", "NewPointsUnique", "OldPointsStay"]
 TET_INVS = ["Embedding", "Positive", "VolumeKept", "WeightKept", "WeightByVolume", "Tiling", "SplitsOK", "ThresholdsMet", "EqualsLoops", "NoStall"]
+QUICK_DIV_NAMES = ["cub_Oh", "cub_T", "tet_D4h", "tet_S4", "tet_4p", "ort_D2h", "ort_mM2", "ort_C1", "hex_D6h", "hex_C3vx", "hex_6p",
+                   "bcc_Oh", "fcc_Oh", "rho_D3d"]
+INFO = {}          # literal differences from today's code, exception classes, ... (information only)
+
+
+def note(key, n=1):
+    INFO[key] = INFO.get(key, 0) + n
 
 
 def tset(vals):
@@ -82,21 +108,21 @@ def cfg_tetra(metrics, tvq, tsq, ns, keep, even=False, breakeq=False):
             f"  KeepWeight = {tlc.tla_value(keep)}\n" + invs(TET_INVS) + "PROPERTY Termination\nCHECK_DEADLOCK FALSE\n")
 
 
-def run_jobs(jobs, nworkers):
-    """jobs: name -> (module, cfg, dump).  All TLC runs are independent: run them concurrently (small ones with 2 workers:
-    TLC evaluates the constant definitions once per worker)."""
+def run_jobs(jobs, nworkers, tag):
+    """jobs: name -> (module, cfg, dump).  The TLC runs are independent: at most three run concurrently (small ones with
+    2 workers: TLC evaluates the constant definitions once per worker)."""
     res = {}
 
     def one(item):
         name, (module, cfg, dump) = item
         small = name.endswith("_v0") or name.endswith("_groups")
-        st = tlc.run_tlc(module, cfg, name, workers=2 if small else nworkers, dump=dump, timeout=3000)
+        st = tlc.run_tlc(module, cfg, f"{tag}_{name}", workers=2 if small else nworkers, dump=dump, timeout=3000, heap="4g")
         if st.get("timeout"):
             raise MachineryError(f"TLC timed out on {name}")
         if st.get("error") and not st.get("violation"):
             raise MachineryError(f"TLC error on {name}: {st['error'][:600]}")
         return name, st
-    with cf.ThreadPoolExecutor(max_workers=len(jobs)) as ex:
+    with cf.ThreadPoolExecutor(max_workers=3) as ex:
         for name, st in ex.map(one, jobs.items()):
             res[name] = st
     return res
@@ -108,11 +134,36 @@ def must_fail(rep, st, name, expected):
     rep.part(name, sensitivity_violation=st["violation"][1], distinct=st["distinct"])
 
 
+def guarded(rep, site, info, fn, *a, **kw):
+    """calls the library; an exception raised inside the package on a valid input is a violation of the check's site
+    (the behaviour the property talks about is absent), the harness's own errors propagate.  -> (ok, value)"""
+    try:
+        return True, fn(*a, **kw)
+    except (W.NonIntegral, W.PrivateGone, MachineryError):
+        raise
+    except Exception as ex:
+        from ..main import raised_by_code_under_test
+        where = raised_by_code_under_test(ex)
+        if where is None:
+            raise
+        rep.violation(f"raises:{site}:{type(ex).__name__}", dict(info, error=f"{type(ex).__name__}: {ex}"[:400], raised_in=where))
+        return False, None
+
+
+def vacuity(rep, what, counts, need):
+    missing = [k for k in need if not counts.get(k)]
+    if missing and not rep.violations:
+        raise MachineryError(f"{what}: classes never occurred: {missing} ({counts})")
+
+
 # ------------------------------------------------------------------------------------------------------------------
 def bind_catalogue(rep, st):
-    """every group of the specification's catalogue = the k-matrices of the real PointGroup built from the generator names"""
+    """every group of the specification's catalogue = the k-matrices of the real PointGroup built from the generator names.
+    -> set of usable group names (a group whose real closure differs from the catalogue is left out of the replays: the
+    comparison would be meaningless for it; the catalogue is part of the harness, a mismatch is not a finding about C06)"""
+    usable, mismatch = set(), {}
     n = 0
-    for s in ftable.dump_states(st):
+    for s in sorted(ftable.dump_states(st), key=lambda s: s["grp"]):
         n += 1
         grp = s["grp"]
         if grp not in W.GENS:
@@ -120,121 +171,163 @@ def bind_catalogue(rep, st):
         spec = set(tuple(tuple(r) for r in g) for g in s["G"])
         try:
             real = W.kmatrices(W.pointgroup(grp))
+        except W.PrivateGone as ex:
+            W.SKIPPED["catalogue binding"] = str(ex)
+            return None
         except W.NonIntegral as ex:
-            raise MachineryError(f"catalogue binding {grp}: {ex}")
+            mismatch[grp] = str(ex)[:200]
+            continue
         rep.case(("group", grp))
         if spec != real or s["lat"] != W.lat_of(grp):
-            # the catalogue is part of the harness: a mismatch is not a finding about C06
-            raise MachineryError(f"catalogue binding failed for {grp}: spec {len(spec)} matrices, PointGroup {len(real)}")
+            mismatch[grp] = f"spec {len(spec)} matrices, PointGroup {len(real)}"
+        else:
+            usable.add(grp)
     if n != len(W.GENS):
         raise MachineryError(f"catalogue has {n} groups, kmesh_world.GENS {len(W.GENS)}")
-    rep.part("catalogue_binding", groups=n)
+    if len(usable) * 2 < n:
+        raise MachineryError(f"catalogue binding failed for most groups: {mismatch}")
+    rep.part("catalogue_binding", groups=n, usable=len(usable), left_out=mismatch)
+    return usable
 
 
-def replay_grid(rep, st, rng, nrep):
+def replay_grid(rep, st, rng, nrep, usable):
     states = [s for s in ftable.dump_states(st) if s["pc"] == "done"]
     if 2 * len(states) != st["distinct"]:
         raise MachineryError(f"grid table: {len(states)} finished cases for {st['distinct']} states")
     bygrp = {}
-    for s in states:
-        bygrp.setdefault(s["grp"], []).append(s)
-    chosen = []
+    for s in sorted(states, key=lambda s: (s["grp"], tuple(s["n"]), s["sym"])):
+        if s["grp"] in usable:
+            bygrp.setdefault(s["grp"], []).append(s)
     for g, lst in sorted(bygrp.items()):
         rng.shuffle(lst)
-    # round-robin over the groups so that every group gets its share
+    chosen = []
     k = 0
-    while len(chosen) < min(nrep, len(states)):
+    total = sum(len(v) for v in bygrp.values())
+    while len(chosen) < min(nrep, total):      # round-robin over the groups so that every group gets its share
         for g in sorted(bygrp):
             if k < len(bygrp[g]):
                 chosen.append(bygrp[g][k])
         k += 1
-    counts = dict(accepted=0, rejected=0, reduced=0)
+    counts = dict(compatible=0, incompatible=0, reduced=0, incompatible_accepted=0)
     for s in chosen[:nrep]:
         grp, n, sym = s["grp"], tuple(s["n"]), s["sym"]
         nkfft = rng.choice([1, 1, 2])
-        grid, _ = W.make_grid(grp, n, nkfft)
-        got_ok = grid != "AssertionError"
+        info = dict(group=grp, generators=W.GENS[grp], lattice=W.LATTICES[W.lat_of(grp)].tolist(), NKdiv=n, NKFFT=nkfft, use_symmetry=sym)
+        grid, _, err = W.make_grid(grp, n, nkfft)
         exp = [(tuple(r["k"]), r["w"]) for r in s["out"]]
         rep.case(("grid", grp, n, sym), nontrivial=True)
-        if got_ok != s["ok"]:
-            rep.violation("Grid:grid_accepted_iff_symmetric", dict(group=grp, generators=W.GENS[grp], NKdiv=n, expected_accepted=s["ok"], got_accepted=got_ok))
+        if not s["ok"]:
+            counts["incompatible"] += 1
+            if grid is not None:       # the property speaks about compatible grids only
+                counts["incompatible_accepted"] += 1
             continue
-        if not got_ok:
-            counts["rejected"] += 1
+        counts["compatible"] += 1
+        if grid is None:
+            rep.violation("Grid:compatible_grid_rejected", dict(info, exception=err))
             continue
-        counts["accepted"] += 1
+        mats = W.mats_of(grp) if sym else [((1, 0, 0), (0, 1, 0), (0, 0, 1))]
         try:
-            _, got = W.klist_grid(grid, sym)
+            ok, res = guarded(rep, "Grid.get_K_list", info, W.klist_grid, grid, sym)
         except W.NonIntegral as ex:
-            rep.violation("Grid.get_K_list:non-integral projection", dict(group=grp, NKdiv=n, use_symmetry=sym, error=str(ex)))
+            rep.violation("Grid.get_K_list:non-integral projection", dict(info, error=str(ex)))
             continue
+        if not ok:
+            continue
+        _, got = res
         if sym and len(exp) < n[0] * n[1] * n[2]:
             counts["reduced"] += 1
-        if got != exp:
+        gw, gdup = W.grid_orbit_weights(got, n, mats)
+        ew, _ = W.grid_orbit_weights(exp, n, mats)
+        if gw != ew or gdup or any(w < 0 for _, w in got):
             rep.violation("Grid.get_K_list:" + ("symmetry" if sym else "full"),
-                          dict(group=grp, generators=W.GENS[grp], lattice=W.LATTICES[W.lat_of(grp)].tolist(), NKdiv=n, NKFFT=nkfft,
-                               use_symmetry=sym, unit="k = K*NKdiv, weight = factor*prod(NKdiv)", expected=exp, got=got))
+                          dict(info, unit="k = K*NKdiv mod NKdiv, weight = factor*prod(NKdiv)", compared="total weight per orbit, no orbit retained twice",
+                               orbits_retained_twice=gdup, expected=exp, got=got))
+        elif got != exp:
+            note("Grid.get_K_list:list_differs_literally")
         if len(rep.cov["samples"]) < 2 and sym and len(exp) > 2:
             rep.sample(dict(fn="Grid.get_K_list", group=grp, NKdiv=n, klist=exp[:6]))
-    for k_, v in counts.items():
-        if v == 0:
-            raise MachineryError(f"grid replay: class '{k_}' never occurred")
+    vacuity(rep, "grid replay", counts, ["compatible", "incompatible", "reduced"])
     rep.part("replay_grid", **counts)
 
 
-def refine_real(grp, n, per, ndiv, sym, order):
-    """the refinement step of run() on the real classes; returns (projection of the initial list, of the final list)"""
+def refine_steps(grp, n, per, ndiv, sym, orders, L):
+    """the refinement step of run() on the real classes, repeated for every entry of `orders` (1-based indices into the
+    current list); returns the projected lists [initial, after step 1, ...]"""
     from wannierberri.grid.Kpoint import exclude_equiv_points
     nd = tuple(ndiv if p else 1 for p in per)
-    geo = W.FineGeo(n, nd, 1)
-    grid, syst = W.make_grid(grp, n, 1, periodic=per)
-    if grid == "AssertionError":
-        raise MachineryError(f"refinement replay: Grid rejected {grp} {n}")
+    geo = W.FineGeo(n, nd, L)
+    grid, syst, err = W.make_grid(grp, n, 1, periodic=per)
+    if grid is None:
+        raise GridRejected(err)
     kl, _ = W.klist_grid(grid, sym)
-    p0 = geo.proj_list(kl)
-    l1 = len(kl)
-    with W.silent():
-        for ik in order:
-            kl += kl[ik - 1].divide(ndiv=np.array([ndiv] * 3), periodic=syst.periodic, use_symmetry=sym)
-        if sym:
-            exclude_equiv_points(kl, new_points=len(kl) - l1)
-    return p0, geo.proj_list(kl)
+    out = [geo.proj_list(kl)]
+    for order in orders:
+        l1 = len(kl)
+        with W.silent():
+            for ik in order:
+                kl += kl[ik - 1].divide(ndiv=np.array([ndiv] * 3), periodic=syst.periodic, use_symmetry=sym)
+            if sym:
+                exclude_equiv_points(kl, new_points=len(kl) - l1)
+        out.append(geo.proj_list(kl))
+    return geo, out
 
 
-def replay_divide(rep, st, rng, nrep):
-    states = [s for s in ftable.dump_states(st) if s["pc"] == "done"]
+class GridRejected(Exception):
+    pass
+
+
+def replay_divide(rep, st, rng, nrep, usable, ntile):
+    states = [s for s in ftable.dump_states(st) if s["pc"] == "done" and s["grp"] in usable]
     if not states:
         raise MachineryError("no finished refinement step in the dump")
+    states.sort(key=lambda s: (s["grp"], tuple(s["n"]), tuple(s["per"]), s["ndiv"], s["sym"], tuple(s["ord"])))
     rng.shuffle(states)
-    counts = dict(merged=0, two_parents=0, anisotropic=0, ndiv3=0, nosym=0)
+    counts = dict(merged=0, two_parents=0, anisotropic=0, ndiv3=0, nosym=0, image_tiling=0)
+    ident = [((1, 0, 0), (0, 1, 0), (0, 0, 1))]
     for s in states[:nrep]:
         grp, n, per, ndiv, sym, order = s["grp"], tuple(s["n"]), tuple(s["per"]), s["ndiv"], s["sym"], tuple(s["ord"])
         exp0, exp1 = W.spec_kl(s["kl0"]), W.spec_kl(s["kl1"])
         rep.case(("divide", grp, n, per, ndiv, sym, order))
         info = dict(group=grp, generators=W.GENS[grp], NKdiv=n, periodic=per, adpt_mesh=ndiv, use_symmetry=sym, refined_indices_1based=order,
-                    unit="c = K * 2*NKdiv*ndiv (mod), weight = factor * prod(NKdiv)*prod(ndiv)")
-        try:
-            got0, got1 = refine_real(grp, n, per, ndiv, sym, order)
-        except W.NonIntegral as ex:
-            rep.violation("divide:non-integral projection", dict(info, error=str(ex)))
-            continue
-        if got0 != exp0:
-            rep.violation("Grid.get_K_list:before_refinement", dict(info, expected=exp0, got=got0))
-            continue
-        if got1 != exp1:
-            rep.violation("divide+exclude_equiv_points:" + ("symmetry" if sym else "plain"), dict(info, before=exp0, expected=exp1, got=got1))
-        nch = sum((ndiv if p else 1) for p in per)
+                    unit="c = K * 2*NKdiv*ndiv (mod), weight = factor * prod(NKdiv)*prod(ndiv)", compared="total weight per class (level, orbit); no two live points equivalent")
         nraw = len(exp0) + len(order) * int(np.prod([ndiv if p else 1 for p in per]))
         counts["merged"] += len(exp1) < nraw
         counts["two_parents"] += len(order) == 2
         counts["anisotropic"] += not all(per)
         counts["ndiv3"] += ndiv == 3
         counts["nosym"] += not sym
+        try:
+            ok, res = guarded(rep, "divide+exclude_equiv_points", info, refine_steps, grp, n, per, ndiv, sym, [order], 1)
+        except W.NonIntegral as ex:
+            rep.violation("divide:non-integral projection", dict(info, error=str(ex)))
+            continue
+        except GridRejected as ex:
+            rep.violation("Grid:compatible_grid_rejected", dict(info, exception=str(ex)))
+            continue
+        if not ok:
+            continue
+        geo, (got0, got1) = res
+        mats = W.mats_of(grp) if sym else ident
+        if W.class_weights(got0, geo.U, mats)[0] != W.class_weights(exp0, geo.U, mats)[0]:
+            rep.violation("Grid.get_K_list:before_refinement", dict(info, expected=exp0, got=got0))
+            continue
+        gw, gdup = W.class_weights(got1, geo.U, mats)
+        ew, _ = W.class_weights(exp1, geo.U, mats)
+        if gw != ew or (sym and gdup) or any(f < 0 for _, _, f in got1):
+            rep.violation("divide+exclude_equiv_points:" + ("symmetry" if sym else "plain"),
+                          dict(info, classes_with_two_live_points=gdup, before=exp0, expected=exp1, got=got1))
+        else:
+            if got1 != exp1:
+                note("refinement:list_differs_literally")
+            # the image cells of the real list tile the zone (groups mapping cells to cells)
+            if counts["image_tiling"] < ntile and W.box_preserving(W.mats_of(grp)):
+                counts["image_tiling"] += 1
+                why = geo.images_tile(got1, mats)
+                if why:
+                    rep.violation("refinement:image_cells_do_not_tile", dict(info, why=why, got=got1))
         if len(rep.cov["samples"]) < 4 and sym and len(exp1) < nraw:
             rep.sample(dict(fn="divide+exclude_equiv_points", **info, after=exp1[:8]))
-    for k_, v in counts.items():
-        if v == 0:
-            raise MachineryError(f"refinement replay: class '{k_}' never occurred")
+    vacuity(rep, "refinement replay", counts, list(counts))
     rep.part("replay_divide", **{k_: int(v) for k_, v in counts.items()})
 
 
@@ -245,10 +338,16 @@ def real_tetra_grid(metric):
     syst = W.tetra_system(metric)
     if np.linalg.det(syst.recip_lattice) <= 0:
         raise MachineryError("tetra lattice must be right handed")
-    cls = GridTrigonal if metric == "hex" else GridTetra
+    cls = GridTrigonal if W.trigonal(metric) else GridTetra
     with W.silent():
         g = cls(syst, length=1.0, NKFFT=1, refine_by_volume=False, refine_by_size=False)
     return g, syst
+
+
+def tlist(g):
+    """the tetrahedra of a grid through the public accessor"""
+    with W.silent():
+        return g.get_K_list()
 
 
 EDGES = ((0, 1), (0, 2), (0, 3), (1, 2), (1, 3), (2, 3))
@@ -267,6 +366,10 @@ def dkmax_of(ts2, f):
     return float(np.sqrt(ts2 / 2.0 * f)) / S_T
 
 
+def cell_volume(metric):
+    return 1.0 / 12.0 if W.trigonal(metric) else 1.0
+
+
 def lengths_separated(tets, metric):
     """the code calls two edges equal when their lengths differ by less than 1e-6: exact ties must be the only ones"""
     G = np.array(W.GRAMS[metric])
@@ -280,7 +383,34 @@ def lengths_separated(tets, metric):
     return True
 
 
-def replay_tetra(rep, st, rng, nsplit):
+def tgrid_record(metric, tv2, ts2, out):
+    return dict(fn="tgrid", metric=metric, S=S_T, M=M_T, NS=4, WT=WT_T, tv2=tv2, ts2=ts2, out=[tl(c) for c in out])
+
+
+def compare_tets(rep, site, info, Ks, exp, metric, tv2, ts2, fallback):
+    """real list of tetrahedra vs the list of the specification: property clauses in floating point always; equal as
+    sets of (vertex set, weight) -> fine; otherwise (another tie-break, ...) the property clauses are evaluated by TLC on
+    the real list (fallback record)"""
+    why = W.tets_float_check(Ks, cell_volume(metric))
+    if why:
+        rep.violation(f"{site}:weights_volumes", dict(info, why=why, n_tetrahedra=len(Ks)))
+        return
+    try:
+        got = [W.tet_proj(K, S_T, WT_T) for K in Ks]
+    except W.NonIntegral as ex:
+        note(f"{site}:not_on_the_integer_lattice_(float_clauses_only)")
+        INFO.setdefault("first_nonintegral", str(ex)[:200])
+        return
+    if W.tets_canon(got) == W.tets_canon(exp):
+        if got != exp:
+            note(f"{site}:list_differs_literally")
+        return
+    note(f"{site}:other_tetrahedra_than_the_specification_(clauses_checked_by_TLC)")
+    if len(fallback) < 40:
+        fallback.append((site, info, tgrid_record(metric, tv2, ts2, got)))
+
+
+def replay_tetra(rep, st, rng, nsplit, fallback):
     runs = {}
     for s in ftable.dump_states(st):
         key = (s["metric"], s["tv2"], s["ts2"])
@@ -294,100 +424,157 @@ def replay_tetra(rep, st, rng, nsplit):
         for h in s["hist"]:
             r["splits"].append((W.spec_tets([h["p"]])[0], W.spec_tets(h["ch"])))
     nruns = 0
-    allsplits = []
+    allsplits = {}
     for (metric, tv2, ts2), r in sorted(runs.items()):
         if not all(k in r for k in ("start", "mid", "done")):
             raise MachineryError(f"tetra run {(metric, tv2, ts2)} incomplete in the dump")
         nruns += 1
-        g, syst = real_tetra_grid(metric)
+        cname = "GridTrigonal" if W.trigonal(metric) else "GridTetra"
+        info0 = dict(metric=metric, real_lattice=W.METRICS[metric].tolist(), grid=cname, unit=f"vertices*{S_T}, factor*{WT_T}")
+        ok, res = guarded(rep, cname + ".__init__", info0, real_tetra_grid, metric)
+        if not ok:
+            continue
+        g, syst = res
         f = W.gram_scale(metric, syst.recip_lattice)
         if not lengths_separated(r["done"] + r["mid"], metric):
             raise MachineryError("edge lengths not separated from the 1e-6 tie tolerance of the code")
-        info = dict(metric=metric, real_lattice=W.METRICS[metric].tolist(), grid="GridTrigonal" if metric == "hex" else "GridTetra",
-                    vmax=vmax_of(tv2), dkmax=dkmax_of(ts2, f), unit=f"vertices*{S_T}, factor*{WT_T}")
+        info = dict(info0, vmax=vmax_of(tv2), dkmax=dkmax_of(ts2, f))
         rep.case(("tetra", metric, tv2, ts2))
-        try:
-            got = [W.tet_proj(K, S_T, WT_T) for K in g.K_list]
-            if got != r["start"]:
-                rep.violation("GridTetra:start" if metric != "hex" else "GridTrigonal:start", dict(info, expected=r["start"], got=got))
-                continue
+        ok, Ks = guarded(rep, cname + ".get_K_list", info, tlist, g)
+        if not ok:
+            continue
+        compare_tets(rep, cname + ":start", info, Ks, r["start"], metric, 0, 0, fallback)
+
+        def silently(fn, *a):
             with W.silent():
-                g.split_tetra_volume(vmax_of(tv2))
-            got = [W.tet_proj(K, S_T, WT_T) for K in g.K_list]
-            if got != r["mid"]:
-                rep.violation("GridTetra.split_tetra_volume", dict(info, expected=r["mid"][:12], got=got[:12], n_expected=len(r["mid"]), n_got=len(got)))
-                continue
-            with W.silent():
-                g.split_tetra_size(dkmax_of(ts2, f))
-            got = [W.tet_proj(K, S_T, WT_T) for K in g.K_list]
-            if got != r["done"]:
-                rep.violation("GridTetra.split_tetra_size", dict(info, expected=r["done"][:12], got=got[:12], n_expected=len(r["done"]), n_got=len(got)))
-                continue
-            got = [W.tet_proj(K, S_T, WT_T) for K in g.get_K_list()]
-            if got != r["done"]:
-                rep.violation("GridTetra.get_K_list", dict(info, expected=r["done"][:12], got=got[:12]))
-            # the same through the constructor (length -> vmax, length_size -> dkmax)
-            g2 = tetra_by_constructor(metric, tv2, ts2, f)
-            got = [W.tet_proj(K, S_T, WT_T) for K in g2.K_list]
-            if got != r["done"]:
-                rep.violation("GridTetra.__init__", dict(info, expected=r["done"][:12], got=got[:12], n_expected=len(r["done"]), n_got=len(got)))
-        except W.NonIntegral as ex:
-            rep.violation("GridTetra:non-integral projection", dict(info, error=str(ex)))
-        for sp in r["splits"]:
-            allsplits.append((metric, syst, sp))
+                return fn(*a)
+        ok, _ = guarded(rep, "GridTetra.split_tetra_volume", info, silently, g.split_tetra_volume, vmax_of(tv2))
+        if not ok:
+            continue
+        compare_tets(rep, "GridTetra.split_tetra_volume", info, tlist(g), r["mid"], metric, tv2, 0, fallback)
+        ok, _ = guarded(rep, "GridTetra.split_tetra_size", info, silently, g.split_tetra_size, dkmax_of(ts2, f))
+        if not ok:
+            continue
+        compare_tets(rep, "GridTetra.split_tetra_size", info, tlist(g), r["done"], metric, tv2, ts2, fallback)
+        # the same through the constructor (length -> vmax, length_size -> dkmax)
+        ok, g2 = guarded(rep, cname + ".__init__", info, tetra_by_constructor, metric, tv2, ts2, f)
+        if ok:
+            compare_tets(rep, cname + ".__init__", info, tlist(g2), r["done"], metric, tv2, ts2, fallback)
+        for p, ch in r["splits"]:
+            allsplits[(metric, p)] = (metric, syst, (p, ch))
         if nruns == 1:
             rep.sample(dict(fn="GridTetra", **info, n_tetrahedra=len(r["done"]), first=r["done"][0]))
     if nruns == 0 or not allsplits:
         raise MachineryError("tetra replay: nothing to replay")
-    rng.shuffle(allsplits)
-    for metric, syst, (p, ch) in allsplits[:nsplit]:
+    splits = [allsplits[k] for k in sorted(allsplits)]
+    rng.shuffle(splits)
+    for metric, syst, (p, ch) in splits[:nsplit]:
         rep.case(("tsplit", metric, p))
+        info = dict(metric=metric, parent=p, unit=f"vertices*{S_T}, factor*{WT_T}")
         K = W.tet_make(p[0], p[1], p[2], p[3], S_T, WT_T, syst.recip_lattice)
-        try:
-            got = [W.tet_proj(c, S_T, WT_T) for c in K.divide(ndiv=2, refine=False)]
-        except W.NonIntegral as ex:
-            rep.violation("KpointBZtetra.divide:non-integral projection", dict(metric=metric, parent=p, error=str(ex)))
+        ok, kids = guarded(rep, "KpointBZtetra.divide", info, K.divide, ndiv=2, refine=False)
+        if not ok:
             continue
-        if got != ch or K.factor != 0:
-            rep.violation("KpointBZtetra.divide", dict(metric=metric, parent=p, expected=ch, got=got, parent_factor_after=K.factor))
-    rep.part("replay_tetra", runs=nruns, splits=min(nsplit, len(allsplits)))
+        check_split(rep, info, K, p, kids, ch, metric, 2, False, fallback)
+    rep.part("replay_tetra", runs=nruns, splits=min(nsplit, len(splits)))
+
+
+def check_split(rep, info, K, p, kids, exp_children, metric, ndiv, refine, fallback):
+    """children of one real split vs the property (floating point), then vs the specification's children as sets"""
+    vp = abs(np.linalg.det((np.array(p[0][1:], dtype=float) - np.array(p[0][0], dtype=float)))) / 6.0 / S_T ** 3
+    vols = np.array([abs(np.linalg.det(W.tet_vertices(c)[1:] - W.tet_vertices(c)[0][None, :])) / 6.0 for c in kids])
+    facs = np.array([float(c.factor) for c in kids])
+    fp = p[1] / WT_T
+    why = None
+    if K.factor != 0:
+        why = f"the split tetrahedron keeps the weight {K.factor}"
+    elif len(kids) == 0 or vols.min() <= 1e-14 or facs.min() <= 0:
+        why = "non-positive volume or weight of a child"
+    elif abs(vols.sum() - vp) > 1e-9 * vp or abs(facs.sum() - fp) > 1e-9 * fp:
+        why = f"children: volume {vols.sum()!r} of {vp!r}, weight {facs.sum()!r} of {fp!r}"
+    elif np.abs(facs / fp - vols / vp).max() > 1e-9:
+        why = "weights of the children are not proportional to their volumes"
+    if why:
+        rep.violation("KpointBZtetra.divide", dict(info, why=why, parent_factor_after=K.factor))
+        return
+    try:
+        got = [W.tet_proj(c, S_T, WT_T) for c in kids]
+    except W.NonIntegral:
+        note("KpointBZtetra.divide:not_on_the_integer_lattice_(float_clauses_only)")
+        return
+    if exp_children is not None and W.tets_canon(got) == W.tets_canon(exp_children):
+        if got != exp_children:
+            note("KpointBZtetra.divide:children_differ_literally")
+        return
+    if exp_children is not None:
+        note("KpointBZtetra.divide:other_children_than_the_specification_(clauses_checked_by_TLC)")
+    if len(fallback) < 40:
+        fallback.append(("KpointBZtetra.divide", info, dict(fn="tsplit", metric=metric, S=S_T, M=M_T, NS=4, ndiv=ndiv, refine=refine, parent=tl(p),
+                                                           out=[tl(c) for c in got])))
 
 
 class Stalled(Exception):
     pass
 
 
-def stall_probe(metric, which):
+def cpu_limited(seconds, fn):
+    """runs fn(); Stalled is raised inside it after `seconds` of CPU time of this process (robust against machine load,
+    independent of anything the code under test prints)"""
+    def handler(signum, frame):
+        raise Stalled()
+    old = signal.signal(signal.SIGVTALRM, handler)
+    signal.setitimer(signal.ITIMER_VIRTUAL, seconds)
+    try:
+        return fn()
+    finally:
+        signal.setitimer(signal.ITIMER_VIRTUAL, 0)
+        signal.signal(signal.SIGVTALRM, old)
+
+
+def stall_probe(metric, which, cpu_s=4.0):
     """Runs the real split_tetra_size / split_tetra_volume with the threshold EXACTLY equal to the largest attained size /
-    volume (read from the real objects, so the floats are identical).  The loops print once per iteration; the hook put in
-    place of print raises when the K list was the same in 50 consecutive iterations (the loop is deterministic: it would
-    never end).  Returns "stalls" or the list after a normal return."""
-    from wannierberri.grid import grid_tetra as GT
-    g, _ = real_tetra_grid(metric)
+    volume (read from the real objects, so the floats are identical).  A loop that does not return within `cpu_s` seconds of
+    CPU time (the normal run takes milliseconds) stalls.  Fast path while the loops still print once per iteration: the
+    hook put in place of print raises when the K list was the same in 100 consecutive iterations.
+    Returns "stalls" / "returns" / "unknown: ..." (information only)."""
+    try:
+        from wannierberri.grid import grid_tetra as GT
+        g, _ = real_tetra_grid(metric)
+        Ks = tlist(g)
+        if which == "size":
+            thr = float(max(K.size for K in Ks))
+            run = lambda: g.split_tetra_size(thr)      # noqa: E731
+        else:
+            thr = float(max(abs(np.linalg.det(W.tet_vertices(K)[1:] - W.tet_vertices(K)[0][None, :])) / 6.0 for K in Ks))
+            run = lambda: g.split_tetra_volume(thr)    # noqa: E731
+    except Exception as ex:
+        return f"unknown: {type(ex).__name__}: {ex}"[:200]
     seen = []
 
     def hook(*a, **k):
-        seen.append(tuple(id(K) for K in g.K_list))
-        if len(seen) > 100 and len(set(seen[-100:])) == 1:
+        seen.append(len(seen))
+        if len(seen) > 200:
             raise Stalled()
     GT.print = hook
     try:
-        if which == "size":
-            g.split_tetra_size(float(g.size_max))
-        else:
-            g.split_tetra_volume(float(max(GT.tetra_volume(K.vertices) for K in g.K_list)))
+        cpu_limited(cpu_s, run)
     except Stalled:
         return "stalls"
+    except Exception as ex:
+        return f"unknown: {type(ex).__name__}: {ex}"[:200]
     finally:
-        del GT.print
-    return [W.tet_proj(K, S_T, WT_T) for K in g.K_list]
+        try:
+            del GT.print
+        except AttributeError:
+            pass
+    return "returns"
 
 
-def constructor_stall_example():
+def constructor_stall_example(cpu_s=4.0):
     """the smallest natural example: cubic lattice a = 1, GridTetra(system, length = 2) (length_size = 1: dkmax equals the
     face diagonal of the reciprocal cell)"""
     from wannierberri.grid import grid_tetra as GT
-    syst = W.StubSystem(None, real_lattice=np.eye(3))
+    syst = W.real_system("eye", np.eye(3), [])
     n = [0]
 
     def hook(*a, **k):
@@ -396,13 +583,16 @@ def constructor_stall_example():
             raise Stalled()
     GT.print = hook
     try:
-        GT.GridTetra(syst, length=2.0, NKFFT=1)
+        cpu_limited(cpu_s, lambda: GT.GridTetra(syst, length=2.0, NKFFT=1))
     except Stalled:
         return True
     except Exception:
         return False
     finally:
-        del GT.print
+        try:
+            del GT.print
+        except AttributeError:
+            pass
     return False
 
 
@@ -412,95 +602,117 @@ def tetra_by_constructor(metric, tv2, ts2, f, nkfft=1):
     det = np.linalg.det(syst.recip_lattice / nkfft)
     length = 2 * np.pi / (vmax_of(tv2) * det) ** (1.0 / 3.0)
     length_size = 2 * np.pi * np.sqrt(2) / dkmax_of(ts2, f)
-    cls = GridTrigonal if metric == "hex" else GridTetra
+    cls = GridTrigonal if W.trigonal(metric) else GridTetra
     with W.silent():
         return cls(syst, length=length, NKFFT=nkfft, length_size=length_size)
 
 
 # ------------------------------------------------------------------------------------------------------------------
-def compatible(n, mats):
-    return all((g[i][j] * n[j]) % n[i] == 0 for g in mats for i in range(3) for j in range(3))
-
-
-def apply_mod(g, c, U):
-    return tuple(sum(c[i] * ((g[i][j] * U[j]) // U[i]) for i in range(3)) % U[j] for j in range(3))
-
-
 def pl(p):
     """(c, lev, fac) -> [c1, c2, c3, lev, fac]"""
     return list(p[0]) + [p[1], p[2]]
 
 
-def record_calls(rep, rng, thorough):
-    """seeded random calls of the real functions -> records"""
+def refine_record(grp, geo, sym, before, order, after, source):
+    return dict(fn="refine", grp=grp, n=list(geo.n), nd=list(geo.nd), L=geo.L, sym=sym, before=[pl(p) for p in before], ord=[int(i) for i in order],
+                after=[pl(p) for p in after], source=source)
+
+
+def record_calls(rep, rng, thorough, usable, tag, recs):
+    """seeded random calls of the real functions -> records (appended to recs)"""
     from wannierberri.grid.Kpoint import exclude_equiv_points
-    recs = []
-    names = sorted(W.GENS)
+    names = sorted(usable)
     nmax = 6 if thorough else 5
     # ---- Grid.get_K_list
     for _ in range(160 if thorough else 40):
         grp = rng.choice(names)
-        mats = W.kmatrices(W.pointgroup(grp))
+        mats = W.mats_of(grp)
         n = tuple(rng.randint(1, nmax) for _ in range(3))
-        if rng.random() < 0.75 and not compatible(n, mats):
-            n = (n[0], n[0], n[2]) if compatible((n[0], n[0], n[2]), mats) else (n[0],) * 3
+        if rng.random() < 0.75 and not W.compatible(n, mats):
+            n = (n[0], n[0], n[2]) if W.compatible((n[0], n[0], n[2]), mats) else (n[0],) * 3
         sym = rng.random() < 0.8
-        grid, _ = W.make_grid(grp, n, rng.choice([1, 2]))
-        ok = grid != "AssertionError"
+        grid, _, err = W.make_grid(grp, n, rng.choice([1, 2]))
+        ok = grid is not None
         out = []
-        if ok:
-            _, got = W.klist_grid(grid, sym)
-            out = [list(k) + [w] for k, w in got]
-        recs.append(dict(fn="klist", grp=grp, n=list(n), sym=sym, ok=ok, out=out))
         rep.case(("rec-klist", grp, n, sym))
+        if ok:
+            info = dict(group=grp, NKdiv=n, use_symmetry=sym)
+            try:
+                good, res = guarded(rep, "Grid.get_K_list", info, W.klist_grid, grid, sym)
+            except W.NonIntegral as ex:
+                rep.violation("Grid.get_K_list:non-integral projection", dict(info, error=str(ex)))
+                continue
+            if not good:
+                continue
+            out = [list(k) + [w] for k, w in res[1]]
+        recs.append(dict(fn="klist", grp=grp, n=list(n), sym=sym, ok=ok, out=out))
     # ---- KpointBZparallel.divide on random K-points (levels 0 and 1, anisotropic meshes)
     ndiv_n = 0
-    while ndiv_n < (240 if thorough else 60):
+    tries = 0
+    while ndiv_n < (240 if thorough else 60) and tries < 20000:
+        tries += 1
         grp = rng.choice(names)
         pg = W.pointgroup(grp)
-        mats = W.kmatrices(pg)
+        mats = W.mats_of(grp)
         per = rng.choice([(True, True, True)] * 3 + [(True, True, False), (True, False, False), (False, True, True)])
         n = tuple(rng.randint(1, 3) if p else 1 for p in per)
         ndiv = tuple(rng.choice([2, 2, 3, 1]) for _ in range(3))
         nd = tuple(d if p else 1 for d, p in zip(ndiv, per))
         L = rng.choice([1, 2])
         geo = W.FineGeo(n, nd, L)
-        if not compatible(geo.U, mats) or not compatible(n, mats) or max(geo.U) > 120:
+        if not W.compatible(geo.U, mats) or not W.compatible(n, mats) or max(geo.U) > 120:
             continue
         sym = rng.random() < 0.75
         c0 = tuple(2 * nd[i] ** L * rng.randrange(n[i]) for i in range(3))
         fac0 = geo.W0 * rng.randint(1, 6)
         K = geo.make_point(c0, 0, fac0, pg)
-        with W.silent():
-            ch = K.divide(ndiv=np.array(ndiv), periodic=np.array(per), use_symmetry=sym)
-        recs.append(dict(fn="divide", grp=grp, n=list(n), nd=list(nd), L=L, sym=sym, parent=list(c0) + [0, fac0],
-                         out=[pl(p) for p in geo.proj_list(ch)]))
+        info = dict(group=grp, NKdiv=n, ndiv=ndiv, periodic=per, use_symmetry=sym, parent=pl((c0, 0, fac0)))
+
+        def div(Kp):
+            with W.silent():
+                return Kp.divide(ndiv=np.array(ndiv), periodic=np.array(per), use_symmetry=sym)
+        try:
+            good, ch = guarded(rep, "KpointBZparallel.divide", info, div, K)
+            if not good:
+                ndiv_n += 1
+                continue
+            out = geo.proj_list(ch)
+        except W.NonIntegral as ex:
+            rep.violation("divide:non-integral projection", dict(info, error=str(ex)))
+            ndiv_n += 1
+            continue
+        recs.append(dict(fn="divide", grp=grp, n=list(n), nd=list(nd), L=L, sym=sym, parent=list(c0) + [0, fac0], out=[pl(p) for p in out]))
         # the parent is dead afterwards
         if K.factor != 0:
-            rep.violation("KpointBZparallel.divide:parent_not_dead", dict(group=grp, factor=K.factor))
+            rep.violation("KpointBZparallel.divide:parent_not_dead", dict(info, factor=K.factor))
         ndiv_n += 1
         rep.case(("rec-divide", grp, n, nd, L, c0, sym))
-        if L == 2:
+        if L == 2 and ch:
             K1 = rng.choice(ch)
-            p1 = geo.proj(K1)
-            with W.silent():
-                ch2 = K1.divide(ndiv=np.array(ndiv), periodic=np.array(per), use_symmetry=sym)
-            recs.append(dict(fn="divide", grp=grp, n=list(n), nd=list(nd), L=L, sym=sym, parent=pl(p1), out=[pl(p) for p in geo.proj_list(ch2)]))
+            try:
+                p1 = geo.proj(K1)
+                good, ch2 = guarded(rep, "KpointBZparallel.divide", dict(info, parent=pl(p1)), div, K1)
+                if good:
+                    recs.append(dict(fn="divide", grp=grp, n=list(n), nd=list(nd), L=L, sym=sym, parent=pl(p1), out=[pl(p) for p in geo.proj_list(ch2)]))
+                rep.case(("rec-divide2", grp, n, nd, p1, sym))
+            except W.NonIntegral as ex:
+                rep.violation("divide:non-integral projection", dict(info, error=str(ex)))
             ndiv_n += 1
-            rep.case(("rec-divide2", grp, n, nd, p1, sym))
     # ---- exclude_equiv_points on random lists with forced equivalences, old and new points
     nex = 0
-    while nex < (200 if thorough else 50):
+    tries = 0
+    while nex < (200 if thorough else 50) and tries < 20000:
+        tries += 1
         grp = rng.choice(names)
         pg = W.pointgroup(grp)
-        mats = sorted(W.kmatrices(pg))
+        mats = W.mats_of(grp)
         n = tuple(rng.randint(1, 2) for _ in range(3))
         nd = (2, 2, 2)
         geo = W.FineGeo(n, nd, 1)
-        if not compatible(geo.U, mats):
+        if not W.compatible(geo.U, mats):
             n = (2, 2, 2)
             geo = W.FineGeo(n, nd, 1)
-            if not compatible(geo.U, mats):
+            if not W.compatible(geo.U, mats):
                 continue
 
         def rand_points(m):
@@ -510,62 +722,180 @@ def record_calls(rep, rng, thorough):
                 lev = rng.choice([0, 1, 1])
                 pts.append((c, lev))
                 if rng.random() < 0.6:     # an image of the same point, same or other level
-                    pts.append((apply_mod(rng.choice(mats), c, geo.U), lev if rng.random() < 0.8 else 1 - lev))
+                    pts.append((W.apply_mod(rng.choice(mats), c, geo.U), lev if rng.random() < 0.8 else 1 - lev))
             rng.shuffle(pts)
             return pts[:m]
+
+        def excl(lst, **kw):
+            with W.silent():
+                exclude_equiv_points(lst, **kw)
+        info = dict(group=grp, NKdiv=n, ndiv=nd)
         old = [geo.make_point(c, lev, rng.randint(1, 9), pg) for c, lev in rand_points(rng.randint(0, 5))]
         inp0 = geo.proj_list(old)
-        with W.silent():
-            exclude_equiv_points(old)
+        good, _ = guarded(rep, "exclude_equiv_points", dict(info, input=inp0), excl, old)
+        if not good:
+            nex += 1
+            continue
         out0 = geo.proj_list(old)
         if inp0:
             recs.append(dict(fn="exclude", grp=grp, n=list(n), nd=list(nd), L=1, nold=0, inp=[pl(p) for p in inp0], out=[pl(p) for p in out0]))
             nex += 1
+        if W.class_weights([(c, l, 1) for c, l, _ in out0], geo.U, mats)[1]:
+            continue      # the first call left equivalent points (flagged by its own record): no valid "old" list for the second call
         new = [geo.make_point(c, lev, rng.randint(1, 9), pg) for c, lev in rand_points(rng.randint(1, 6))]
         if old and rng.random() < 0.7:      # a new point equivalent to an old one
             c, lev, _ = out0[rng.randrange(len(out0))]
-            new.append(geo.make_point(apply_mod(rng.choice(mats), c, geo.U), lev, rng.randint(1, 9), pg))
+            new.append(geo.make_point(W.apply_mod(rng.choice(mats), c, geo.U), lev, rng.randint(1, 9), pg))
         lst = old + new
         inp = geo.proj_list(lst)
-        with W.silent():
-            exclude_equiv_points(lst, new_points=len(new))
-        recs.append(dict(fn="exclude", grp=grp, n=list(n), nd=list(nd), L=1, nold=len(old), inp=[pl(p) for p in inp], out=[pl(p) for p in geo.proj_list(lst)]))
+        good, _ = guarded(rep, "exclude_equiv_points", dict(info, input=inp, new_points=len(new)), excl, lst, new_points=len(new))
         nex += 1
+        if not good:
+            continue
+        recs.append(dict(fn="exclude", grp=grp, n=list(n), nd=list(nd), L=1, nold=len(old), inp=[pl(p) for p in inp], out=[pl(p) for p in geo.proj_list(lst)]))
         rep.case(("rec-exclude", grp, n, tuple(inp)))
-    # ---- KpointBZtetra.divide (ndiv 2 and 3, refine / split) on tetrahedra of real grids
+    # ---- chains of two refinement steps (the loop of run() on the real classes): second-level refinement, merged points
+    #      refined again, exclusion against old points of level >= 1
+    nch = 0
+    tries = 0
+    while nch < (40 if thorough else 12) and tries < 2000:
+        tries += 1
+        grp = rng.choice(names)
+        mats = W.mats_of(grp)
+        per = rng.choice([(True, True, True)] * 3 + [(True, True, False)])
+        n = tuple(rng.choice([1, 2, 2]) if p else 1 for p in per)
+        ndiv = rng.choice([2, 2, 3])
+        nd = tuple(ndiv if p else 1 for p in per)
+        geo0 = W.FineGeo(n, nd, 2)
+        if not W.compatible(n, mats) or not W.compatible(geo0.U, mats) or max(geo0.U) > 40:
+            continue
+        sym = rng.random() < 0.8
+        info = dict(group=grp, NKdiv=n, periodic=per, adpt_mesh=ndiv, use_symmetry=sym)
+        try:
+            good, res = guarded(rep, "divide+exclude_equiv_points", info, refine_steps, grp, n, per, ndiv, sym, [], 2)
+            if not good:
+                nch += 1
+                continue
+            geo, (l0,) = res
+            o1 = rng.sample(range(1, len(l0) + 1), min(len(l0), rng.choice([1, 1, 2])))
+            good, res = guarded(rep, "divide+exclude_equiv_points", dict(info, refined=[o1]), refine_steps, grp, n, per, ndiv, sym, [o1], 2)
+            if not good:
+                nch += 1
+                continue
+            _, (l0, l1) = res
+            live1 = [i + 1 for i, p in enumerate(l1) if p[1] == 1 and p[2] > 0 and p[2] % (nd[0] * nd[1] * nd[2]) == 0]
+            cand = live1 if live1 and rng.random() < 0.8 else [i + 1 for i, p in enumerate(l1) if p[1] == 0 and p[2] > 0]
+            if not cand:
+                continue
+            o2 = rng.sample(cand, min(len(cand), rng.choice([1, 2])))
+            good, res = guarded(rep, "divide+exclude_equiv_points", dict(info, refined=[o1, o2]), refine_steps, grp, n, per, ndiv, sym, [o1, o2], 2)
+            if not good:
+                nch += 1
+                continue
+            _, (l0, l1, l2) = res
+        except W.NonIntegral as ex:
+            rep.violation("divide:non-integral projection", dict(info, error=str(ex)))
+            nch += 1
+            continue
+        except GridRejected as ex:
+            rep.violation("Grid:compatible_grid_rejected", dict(info, exception=str(ex)))
+            nch += 1
+            continue
+        recs.append(refine_record(grp, geo, sym, l0, o1, l1, "chain"))
+        recs.append(refine_record(grp, geo, sym, l1, o2, l2, "chain"))
+        rep.case(("rec-chain", grp, n, per, ndiv, sym, tuple(o1), tuple(o2)))
+        nch += 1
+    # ---- real run() in 3-D with two adaptive iterations, observed through the hook events of run_grid.py
+    nrun = 0
+    wd = workdir(tag + "_run")
+    for grp, n, ndiv in [("cub_Oh", (2, 2, 2), 2), ("ort_mM2", (2, 1, 2), 2), ("tet_C4v", (2, 2, 1), 2), ("bcc_Oh", (2, 2, 2), 2),
+                         ("hex_D3d", (1, 1, 2), 3), ("rho_D3d", (1, 1, 1), 3), ("ort_C1", (1, 2, 1), 2), ("fcc_Oh", (1, 1, 1), 2)][:8 if thorough else 5]:
+        if grp not in usable or "run() in 3-D" in W.SKIPPED:
+            continue
+        mats = W.mats_of(grp)
+        if not W.compatible(n, mats) or not W.compatible(W.FineGeo(n, (ndiv,) * 3, 2).U, mats):
+            raise MachineryError(f"run() world {grp} {n} {ndiv} is not compatible")
+        for sym in ([True, False] if nrun < 2 or thorough else [True]):
+            adpt_fac = rng.choice([1, 2])
+            info = dict(group=grp, NKdiv=n, adpt_mesh=ndiv, use_irred_kpt=sym, adpt_num_iter=2, adpt_fac=adpt_fac)
+            d = os.path.join(wd, f"{grp}_{int(sym)}")
+            os.makedirs(d, exist_ok=True)
+            try:
+                good, steps = guarded(rep, "run", info, W.run_refinement, grp, n, ndiv, sym, 2, adpt_fac, seed(), d)
+            except W.PrivateGone as ex:
+                W.SKIPPED["run() in 3-D"] = str(ex)[:300]
+                break
+            except W.NonIntegral as ex:
+                rep.violation("run:non-integral projection", dict(info, error=str(ex)))
+                continue
+            if not good:
+                continue
+            if len(steps) != 2 or any(not s["ord"] for s in steps):
+                raise MachineryError(f"run() world {info}: expected two refinement steps, got {[(len(s['before']), s['ord']) for s in steps]}")
+            geo = W.FineGeo(n, (ndiv,) * 3, 2)
+            for s in steps:
+                recs.append(refine_record(grp, geo, sym, s["before"], s["ord"], s["after"], "run"))
+            rep.case(("rec-run", grp, n, ndiv, sym, adpt_fac))
+            nrun += 1
+    shutil.rmtree(wd, ignore_errors=True)
+    # ---- KpointBZtetra.divide (ndiv 2 and 3, refine / split, also called as run() calls it) on tetrahedra of real grids
     ntet = 0
     pools = {}
-    while ntet < (120 if thorough else 30):
+    tries = 0
+    while ntet < (120 if thorough else 30) and tries < 20000:
+        tries += 1
         metric = rng.choice(["cub", "tet", "ort"])
         if metric not in pools:
             g, syst = real_tetra_grid(metric)
             f = W.gram_scale(metric, syst.recip_lattice)
             with W.silent():
                 g.split_tetra_size(dkmax_of(2 * (int(max_len2(metric) * 3) // 8) + 1, f))
-            pools[metric] = (g.get_K_list(), syst)
+            pools[metric] = (tlist(g), syst)
         kl, syst = pools[metric]
         K = rng.choice(kl).copy()
-        p = W.tet_proj(K, S_T, WT_T)
+        try:
+            p = W.tet_proj(K, S_T, WT_T)
+        except W.NonIntegral:
+            continue
         ndiv = rng.choice([2, 3])
         refine = rng.random() < 0.5
+        as_run = rng.random() < 0.35
         if not splittable(p, ndiv, metric) or not lengths_separated([p], metric):
             continue
-        ch = K.divide(ndiv=ndiv, refine=refine)
-        out = [W.tet_proj(c, S_T, WT_T) for c in ch]
-        recs.append(dict(fn="tsplit", metric=metric, S=S_T, M=M_T, NS=4, ndiv=ndiv, refine=refine, parent=tl(p), out=[tl(c) for c in out]))
+        info = dict(metric=metric, parent=p, ndiv=ndiv, refine=refine, called_as_run_does=as_run)
+        if as_run:      # run(): K_list[iK].divide(ndiv=adpt_mesh (array), periodic=system.periodic, use_symmetry=...)
+            refine = True
+            good, ch = guarded(rep, "KpointBZtetra.divide", info, K.divide, ndiv=np.array([ndiv] * 3), periodic=np.array([True] * 3), use_symmetry=True)
+        else:
+            good, ch = guarded(rep, "KpointBZtetra.divide", info, K.divide, ndiv=ndiv, refine=refine)
         ntet += 1
+        if not good:
+            continue
+        fb = []
+        check_split(rep, info, K, p, ch, None, metric, ndiv, refine, fb)
+        recs += [r for _, _, r in fb]
         rep.case(("rec-tsplit", metric, p, ndiv, refine))
     # ---- GridTetra / GridTrigonal through the constructor with random thresholds
     for _ in range(24 if thorough else 8):
-        metric = rng.choice(["cub", "tet", "ort", "hex"])
+        metric = rng.choice(["cub", "tet", "ort", "hex", "hex120"])
         f = W.gram_scale(metric, W.tetra_system(metric).recip_lattice)
         tv2 = 2 * rng.randint(start_vol6(metric) // 5, start_vol6(metric) * 2) + 1
         ts2 = 2 * rng.randint(int(max_len2(metric) * 0.3), int(max_len2(metric) * 1.2)) + 1
-        g = tetra_by_constructor(metric, tv2, ts2, f)
-        out = [W.tet_proj(K, S_T, WT_T) for K in g.get_K_list()]
-        if not lengths_separated(out, metric):
+        info = dict(metric=metric, vmax=vmax_of(tv2), dkmax=dkmax_of(ts2, f))
+        good, g = guarded(rep, "GridTetra.__init__", info, tetra_by_constructor, metric, tv2, ts2, f)
+        if not good:
             continue
-        recs.append(dict(fn="tgrid", metric=metric, S=S_T, M=M_T, NS=4, WT=WT_T, tv2=tv2, ts2=ts2, out=[tl(c) for c in out]))
+        Ks = tlist(g)
+        why = W.tets_float_check(Ks, cell_volume(metric))
+        if why:
+            rep.violation("GridTetra.__init__:weights_volumes", dict(info, why=why))
+            continue
+        try:
+            out = [W.tet_proj(K, S_T, WT_T) for K in Ks]
+        except W.NonIntegral:
+            note("GridTetra.__init__:not_on_the_integer_lattice_(float_clauses_only)")
+            continue
+        recs.append(tgrid_record(metric, tv2, ts2, out))
         rep.case(("rec-tgrid", metric, tv2, ts2))
     return recs
 
@@ -581,7 +911,7 @@ def start_tets(metric):
     """starting tetrahedra of the real grid, projected"""
     if metric not in _START:
         g, _ = real_tetra_grid(metric)
-        _START[metric] = [W.tet_proj(K, S_T, WT_T) for K in g.K_list]
+        _START[metric] = [W.tet_proj(K, S_T, WT_T) for K in tlist(g)]
     return _START[metric]
 
 
@@ -607,129 +937,209 @@ def splittable(p, ndiv, metric):
 # ------------------------------------------------------------------------------------------------------------------
 def check(pid, tier):
     rep = Report(pid, tier, "model_checking")
+    tag = f"c06_{os.getpid()}"
+    INFO.clear()
+    try:
+        rc = _check(rep, tier, tag)
+    except Exception as ex:
+        if rep.violations:      # never lose the violations already collected
+            print(f"[C06] the check stopped early ({type(ex).__name__}: {str(ex)[:300]}); reporting the violations collected so far")
+            try:
+                return rep.finish()
+            except Exception:
+                pass
+        raise
+    if rc == 0:      # scratch of this process (names carry the pid); kept for inspection after a violation
+        for d in glob.glob(os.path.join(WORK, "tlc", f"*{tag}*")) + glob.glob(os.path.join(WORK, "records", f"{tag}*")) + glob.glob(os.path.join(WORK, f"{tag}*")):
+            shutil.rmtree(d, ignore_errors=True)
+    return rc
+
+
+def _check(rep, tier, tag):
     thorough = tier == "thorough"
     rng = random.Random(seed() * 7919 + 6)
     rep.rule("TLC enumerates every (group of the catalogue, grid size, use_symmetry), every refinement step (group, grid, periodic mask, "
              "adpt_mesh, one or two refined points), every exclusion order for short K lists and every tetrahedral run (metric, thresholds) "
-             "inside the constants; a case = one TLC state (or split) replayed on the real code with exact comparison, plus seeded random "
-             "recorded calls validated by TLC; distinct by input tuple")
-    rep.assume("k-points, vertices and weights are compared as integers after rounding with verified integrality (tolerance 1e-7)")
-    rep.assume("thresholds of split_tetra_volume/size never equal an attained volume/size (odd numerators): on equality the loops of the code do not terminate")
+             "inside the constants; a case = one TLC state (or split) of a seeded sample replayed on the real code with exact integer comparison "
+             "up to symmetry, plus seeded random recorded calls, refinement chains and real run() executions validated by TLC; distinct by input tuple")
+    rep.assume("k-points, vertices and weights are compared as integers after rounding with verified integrality (tolerance 1e-7, tetrahedra 1e-6)")
+    rep.assume("thresholds of split_tetra_volume/size never equal an attained volume/size (odd numerators) in the models and replays that carry the claim")
     rep.assume("edge lengths of the replayed tetrahedra are either exactly tied or separated by > 1e-4 (the code's tie tolerance is 1e-6)")
     rep.assume("exclude_equiv_points: equivalent points share a distance group (the group operations are isometries of the reciprocal lattice) "
                "and the old points are pairwise inequivalent (established by the previous call)")
-    nw = 6 if thorough else 4
+    nw = 4
+    groups_cfg = "SPECIFICATION Spec\nINVARIANT GroupAxioms\nINVARIANT CrystallographicOrder\nINVARIANT OrthogonalAreBox\nCHECK_DEADLOCK FALSE\n"
     if thorough:
         sizes_div = [111, 211, 121, 221, 212, 222, 311, 331, 313, 322, 232, 332, 333]
         jobs = {
-            "c06_groups": ("MC_KMeshGroups.tla", "SPECIFICATION Spec\nINVARIANT GroupAxioms\nINVARIANT CrystallographicOrder\nINVARIANT OrthogonalAreBox\nCHECK_DEADLOCK FALSE\n", True),
-            "c06_grid_loop": ("MC_KMeshGrid.tla", cfg_grid(4, True), False),
-            "c06_grid_tab": ("MC_KMeshGridTab.tla", cfg_grid(6, False), True),
-            "c06_divide": ("MC_KMeshDivide.tla", cfg_divide(None, sizes_div, [111, 110, 100, 11], [2, 3], 8, None, False, False), True),
-            "c06_divide_fullsamples": ("MC_KMeshDivide.tla", cfg_divide(["cub_Oh", "cub_T", "tet_D4h", "tet_S4", "ort_D2h", "ort_C2v"], [111, 211, 221, 222], [111, 110], [2, 3], 4,
-                                                                        None, True, False), False),
-            "c06_excl": ("MC_KMeshExcl.tla", cfg_excl(4, 6, False), False),
-            "c06_tetra": ("MC_KMeshTetra.tla", cfg_tetra(["cub", "tet", "ort", "hex"], [9, 4, 2, 1], [9, 6, 4, 3, 2], 6, False), True),
+            "groups": ("MC_KMeshGroups.tla", groups_cfg, True),
+            "grid_loop": ("MC_KMeshGrid.tla", cfg_grid(4, True), False),
+            "grid_tab": ("MC_KMeshGridTab.tla", cfg_grid(6, False), True),
+            "divide": ("MC_KMeshDivide.tla", cfg_divide(None, sizes_div, [111, 110, 100, 11], [2, 3], 8, None, False, False), True),
+            "divide_fullsamples": ("MC_KMeshDivide.tla", cfg_divide(["cub_Oh", "cub_T", "tet_D4h", "tet_S4", "ort_D2h", "ort_C2v", "rho_D3d"], [111, 211, 221, 222], [111, 110], [2, 3], 4,
+                                                                    None, True, False), False),
+            "excl": ("MC_KMeshExcl.tla", cfg_excl(4, 6, False), False),
+            "tetra": ("MC_KMeshTetra.tla", cfg_tetra(["cub", "tet", "ort", "hex", "hex120"], [9, 4, 2, 1], [9, 6, 4, 3, 2], 6, False), True),
         }
-        ngrid, ndivr, nsplit = 9000, 3000, 1500
+        ngrid, ndivr, nsplit, ntile = 9000, 3000, 1500, 400
     else:
         jobs = {
-            "c06_groups": ("MC_KMeshGroups.tla", "SPECIFICATION Spec\nINVARIANT GroupAxioms\nINVARIANT CrystallographicOrder\nINVARIANT OrthogonalAreBox\nCHECK_DEADLOCK FALSE\n", True),
-            "c06_grid_loop": ("MC_KMeshGrid.tla", cfg_grid(3, True), False),
-            "c06_grid_tab": ("MC_KMeshGridTab.tla", cfg_grid(4, False), True),
-            "c06_divide": ("MC_KMeshDivide.tla", cfg_divide(None, [111, 211, 221, 222], [111, 110, 100], [2, 3], 4,
-                                                            ["cub_Oh", "cub_T", "tet_D4h", "tet_S4", "ort_D2h", "ort_mM2"], False, False), True),
-            "c06_excl": ("MC_KMeshExcl.tla", cfg_excl(3, 5, False), False),
-            "c06_tetra": ("MC_KMeshTetra.tla", cfg_tetra(["cub", "ort", "hex"], [9, 2], [9, 4, 2], 4, False), True),
+            "groups": ("MC_KMeshGroups.tla", groups_cfg, True),
+            "grid_loop": ("MC_KMeshGrid.tla", cfg_grid(3, True), False),
+            "grid_tab": ("MC_KMeshGridTab.tla", cfg_grid(4, False), True),
+            "divide": ("MC_KMeshDivide.tla", cfg_divide(QUICK_DIV_NAMES, [111, 211, 221, 222], [111, 110, 100], [2, 3], 3,
+                                                        ["cub_Oh", "cub_T", "tet_D4h", "tet_S4", "ort_D2h", "ort_mM2", "rho_D3d"], False, False), True),
+            "excl": ("MC_KMeshExcl.tla", cfg_excl(3, 5, False), False),
+            "tetra": ("MC_KMeshTetra.tla", cfg_tetra(["cub", "ort", "hex", "hex120"], [9, 2], [9, 4, 2], 4, False), True),
         }
-        ngrid, ndivr, nsplit = 900, 400, 150
+        ngrid, ndivr, nsplit, ntile = 900, 300, 150, 60
     # sensitivity self-tests: plausible wrong variants that TLC must reject
-    jobs["c06_divide_v0"] = ("MC_KMeshDivide.tla", cfg_divide(["ort_D2h", "tet_C4v"], [111, 211], [111, 100], [2, 3], 0, [], False, True), False)
-    jobs["c06_excl_v0"] = ("MC_KMeshExcl.tla", cfg_excl(2, 3, True), False)
-    jobs["c06_tetra_v0"] = ("MC_KMeshTetra.tla", cfg_tetra(["cub"], [2], [9], 4, True), False)
-    # thresholds equal to an attained value: does the real loop stall?  (decides which exit test the model uses)
+    jobs["divide_v0"] = ("MC_KMeshDivide.tla", cfg_divide(["ort_D2h", "tet_C4v"], [111, 211], [111, 100], [2, 3], 0, [], False, True), False)
+    jobs["excl_v0"] = ("MC_KMeshExcl.tla", cfg_excl(2, 3, True), False)
+    jobs["tetra_v0"] = ("MC_KMeshTetra.tla", cfg_tetra(["cub"], [2], [9], 4, True), False)
+    # thresholds equal to an attained value: does the real loop return?  Termination is NOT part of C06: information only.
     import wannierberri  # noqa: F401  (lazy: costs seconds)
-    probes = {(m, w): stall_probe(m, w) for m in ("cub", "ort") for w in ("size", "volume")}
+    probes = {(m, w): stall_probe(m, w) for m, w in ([("cub", "size"), ("cub", "volume"), ("ort", "size"), ("ort", "volume")] if thorough else [("cub", "size"), ("ort", "volume")])}
     stalls = [k_ for k_, v in probes.items() if v == "stalls"]
-    if stalls and len(stalls) != len(probes):
-        raise MachineryError(f"equal-threshold probes disagree: {[(k_, v == 'stalls') for k_, v in probes.items()]}")
-    jobs["c06_tetra_eq"] = ("MC_KMeshTetra.tla", cfg_tetra(["cub", "ort"], [8, 4], [8, 4], 4, False, even=True, breakeq=not stalls), False)
-    res = run_jobs(jobs, nw)
-    st_eq = res.pop("c06_tetra_eq")
+    jobs["tetra_eq"] = ("MC_KMeshTetra.tla", cfg_tetra(["cub", "ort"], [8, 4], [8, 4], 4, False, even=True, breakeq=not stalls), False)
+    res = run_jobs(jobs, nw, tag)
+    st_eq = res.pop("tetra_eq")
+    obs = dict(what="split_tetra_size(dkmax) / split_tetra_volume(vmax) with the threshold equal to the largest attained size / volume "
+                    "(termination is not part of the C06 statement: reported for information, never as a violation)",
+               probes={f"{m}:{w}": v for (m, w), v in probes.items()},
+               model="loops as written (break only if max < threshold)" if stalls else "break if max <= threshold",
+               tlc_result=(st_eq["violation"][1] if st_eq.get("violation") else "no violation"), tlc_states=st_eq.get("distinct"))
     if stalls:
-        # model of the code as written: TLC must find the stall, too; then it is a finding on the real code
-        if not st_eq.get("violation") or st_eq["violation"][1] not in ("NoStall", "Termination"):
-            raise MachineryError(f"the real loops stall at equal thresholds but the model does not: {st_eq.get('violation')}")
-        rep.part("c06_tetra_eq", model="loops as written", tlc_violation=st_eq["violation"][1])
-        rep.violation("GridTetra.split_tetra:no_termination_at_equal_threshold",
-                      dict(what="split_tetra_size(dkmax) / split_tetra_volume(vmax) never return when the threshold equals the largest attained "
-                                "size / volume: the loop ends only if max < threshold but splits only tetrahedra with value > threshold, so the "
-                                "K list is identical in every iteration (TLC: invariant NoStall of MC_KMeshTetra violated for even thresholds; "
-                                "real code: 100 consecutive iterations with the identical K list)",
-                           probes={f"{m}:{w}": "stalls" for m, w in stalls},
-                           minimal_example="GridTetra(system with real_lattice = eye(3), length = 2.0, NKFFT = 1) does not return",
-                           minimal_example_stalls=constructor_stall_example(), tlc_out=st_eq["meta"] + "/tlc.out"))
+        obs["explanation"] = ("the loop ends only if max < threshold but splits only tetrahedra with value > threshold: at equality the K list is "
+                              "identical in every iteration and the call never returns (TLC: invariant NoStall / Termination of MC_KMeshTetra violated "
+                              "for even thresholds)")
+        obs["minimal_example"] = "GridTetra(system with real_lattice = eye(3), length = 2.0, NKFFT = 1) does not return"
+        obs["minimal_example_stalls"] = constructor_stall_example()
+        obs["model_agrees_with_code"] = bool(st_eq.get("violation")) and st_eq["violation"][1] in ("NoStall", "Termination")
     else:
-        ftable.spec_violation(rep, st_eq, "c06_tetra_eq")
-        rep.add_tlc("c06_tetra_eq", st_eq)
-    must_fail(rep, res.pop("c06_divide_v0"), "c06_divide_v0", ("SubcellsTile", "MergeKeepsWeight"))
-    must_fail(rep, res.pop("c06_excl_v0"), "c06_excl_v0", ("LoopEqualsDeclarative", "WeightKept", "Lossless"))
-    must_fail(rep, res.pop("c06_tetra_v0"), "c06_tetra_v0", ("WeightKept", "WeightByVolume", "SplitsOK"))
+        obs["model_agrees_with_code"] = not st_eq.get("violation")
+    rep.part("observation_outside_C06", **obs)
+    must_fail(rep, res.pop("divide_v0"), "c06_divide_v0", ("SubcellsTile", "MergeKeepsWeight"))
+    must_fail(rep, res.pop("excl_v0"), "c06_excl_v0", ("LoopEqualsDeclarative", "WeightKept", "Lossless"))
+    must_fail(rep, res.pop("tetra_v0"), "c06_tetra_v0", ("WeightKept", "WeightByVolume", "SplitsOK"))
     specbad = False
     for name, st in res.items():
-        specbad |= bool(ftable.spec_violation(rep, st, name))
-        rep.add_tlc(name, st)
+        specbad |= bool(ftable.spec_violation(rep, st, "c06_" + name))
+        rep.add_tlc("c06_" + name, st)
     if specbad:
         return rep.finish()
-    tlc.check_not_vacuous(res["c06_grid_loop"], ["Create", "LoopBody", "LoopEnd", "DoFlatten"], "c06_grid_loop")
-    tlc.check_not_vacuous(res["c06_grid_tab"], ["Call"], "c06_grid_tab")
-    tlc.check_not_vacuous(res["c06_divide"], ["GetKList"], "c06_divide")   # Refine sits under \E: TLC reports it as a sub-action of Next; replay_divide requires "done" states in the dump
-    tlc.check_not_vacuous(res["c06_excl"], ["Call"], "c06_excl")
-    tlc.check_not_vacuous(res["c06_tetra"], ["VolRound", "VolEnd", "SizRound", "SizEnd"], "c06_tetra")
+    tlc.check_not_vacuous(res["grid_loop"], ["Create", "LoopBody", "LoopEnd", "DoFlatten"], "c06_grid_loop")
+    tlc.check_not_vacuous(res["grid_tab"], ["Call"], "c06_grid_tab")
+    tlc.check_not_vacuous(res["divide"], ["GetKList"], "c06_divide")   # Refine sits under \E: TLC reports it as a sub-action of Next; replay_divide requires "done" states in the dump
+    tlc.check_not_vacuous(res["excl"], ["Call"], "c06_excl")
+    tlc.check_not_vacuous(res["tetra"], ["VolRound", "VolEnd", "SizRound", "SizEnd"], "c06_tetra")
 
-    bind_catalogue(rep, res["c06_groups"])
-    replay_grid(rep, res["c06_grid_tab"], rng, ngrid)
-    replay_divide(rep, res["c06_divide"], rng, ndivr)
-    replay_tetra(rep, res["c06_tetra"], rng, nsplit)
+    def optional(what, fn, *a):
+        """a sub-check that needs an internal name of the package which is gone is skipped, not failed"""
+        try:
+            fn(*a)
+        except W.PrivateGone as ex:
+            W.SKIPPED[what] = str(ex)[:300]
+
+    usable = bind_catalogue(rep, res["groups"])
+    fallback = []
+    if usable is None:
+        usable = set()
+    else:
+        optional("replay of Grid.get_K_list", replay_grid, rep, res["grid_tab"], rng, ngrid, usable)
+        optional("replay of refinement steps", replay_divide, rep, res["divide"], rng, ndivr, usable, ntile)
+    optional("replay of tetrahedral grids", replay_tetra, rep, res["tetra"], rng, nsplit, fallback)
 
     # ---------------- code -> spec
-    recs = record_calls(rep, rng, thorough)
-    stv, bad = ftable.validate_records("KMeshRec.tla", ftable.REC_CFG, recs, "c06", chunk=400)
+    recs = []
+    if usable:
+        optional("recorded calls (partly)", record_calls, rep, rng, thorough, usable, tag, recs)
+    nown = len(recs)
+    recs += [r for _, _, r in fallback]
+    stv, bad = ftable.validate_records("KMeshRec.tla", ftable.REC_CFG, recs, tag, chunk=400)
     rep.add_tlc("c06_records", stv)
     rep.add_traces(len(recs))
-    fnname = dict(klist="Grid.get_K_list", divide="KpointBZparallel.divide", exclude="exclude_equiv_points", tsplit="KpointBZtetra.divide", tgrid="GridTetra.__init__")
-    for i, clauses in bad.items():
+    fnname = dict(klist="Grid.get_K_list", divide="KpointBZparallel.divide", exclude="exclude_equiv_points", refine="refinement_step",
+                  tsplit="KpointBZtetra.divide", tgrid="GridTetra.__init__")
+    outside = []
+    rinfo = {}
+    for i, clauses in sorted(bad.items()):
         r = recs[i]
-        if set(clauses) & {"in_model", "generic"}:
-            raise MachineryError(f"recorded call outside the model ({clauses}): {str(r)[:300]}")
-        rep.violation(f"{fnname[r['fn']]}:recorded", dict(record=r, failing_clauses=clauses))
+        for c in clauses:
+            if c.startswith("info_"):
+                rinfo[f"{r['fn']}:{c}"] = rinfo.get(f"{r['fn']}:{c}", 0) + 1
+        hard = [c for c in clauses if not c.startswith("info_")]
+        if not hard:
+            continue
+        if "in_model" in hard:
+            outside.append((i, hard))
+            continue
+        if i >= nown:
+            site, info, _ = fallback[i - nown]
+            rep.violation(f"{site}:property_clauses_on_the_real_list", dict(info, record=r, failing_clauses=hard))
+        else:
+            site = fnname[r["fn"]] + (":run" if r.get("source") == "run" else "")
+            rep.violation(f"{site}:recorded:{hard[0]}", dict(record=r, failing_clauses=hard))
+    if outside and not rep.violations:
+        raise MachineryError(f"recorded call outside the model: {outside[:3]} {str(recs[outside[0][0]])[:300]}")
     kinds = {}
+    for r in recs[:nown]:
+        k_ = r["fn"] + (":" + r["source"] if "source" in r else "")
+        kinds[k_] = kinds.get(k_, 0) + 1
+    if usable and "recorded calls (partly)" not in W.SKIPPED:
+        need = ["klist", "divide", "exclude", "refine:chain", "tsplit", "tgrid"] + ([] if "run() in 3-D" in W.SKIPPED else ["refine:run"])
+        vacuity(rep, "records", kinds, need)
+    rep.part("records", **kinds, fallback_records=len(fallback))
+    rep.part("records_info", **rinfo)
+    rep.part("conformance_info", **INFO)
+    if W.SKIPPED:
+        rep.part("skipped_private", **W.SKIPPED)
     for r in recs:
-        kinds[r["fn"]] = kinds.get(r["fn"], 0) + 1
-    for k_ in fnname:
-        if not kinds.get(k_):
-            raise MachineryError(f"no record of kind {k_}")
-    rep.part("records", **kinds)
-    rep.sample(next(r for r in recs if r["fn"] == "divide" and len(r["out"]) > 1))
+        if r["fn"] == "divide" and len(r["out"]) > 1:
+            rep.sample(r)
+            break
     # binding self-test: corrupted records must be rejected
     badrecs = []
-    r = copy.deepcopy(next(r for r in recs if r["fn"] == "klist" and r["ok"] and len(r["out"]) > 1))
-    r["out"][-1][3] += 1
-    badrecs.append(r)
-    r = copy.deepcopy(next(r for r in recs if r["fn"] == "divide" and len(r["out"]) > 1))
-    r["out"][0][0] = (r["out"][0][0] + 1) % (2 * r["n"][0] * r["nd"][0] ** r["L"])
-    badrecs.append(r)
-    r = copy.deepcopy(next(r for r in recs if r["fn"] == "exclude" and len(r["out"]) < len(r["inp"])))
-    r["out"][0][4] -= 1
-    badrecs.append(r)
-    r = copy.deepcopy(next(r for r in recs if r["fn"] == "tsplit"))
-    r["out"][0][1] += 1
-    badrecs.append(r)
-    r = copy.deepcopy(next(r for r in recs if r["fn"] == "tgrid" and len(r["out"]) > 3))
-    del r["out"][-1]
-    badrecs.append(r)
-    _, b2 = ftable.validate_records("KMeshRec.tla", ftable.REC_CFG, badrecs, "c06_selftest")
-    if sorted(b2) != list(range(len(badrecs))):
-        raise MachineryError(f"binding self-test failed: corrupted records accepted: {sorted(set(range(len(badrecs))) - set(b2))}")
-    rep.part("binding_selftest", corrupted_records_rejected={str(k_): v for k_, v in b2.items()})
+
+    def pick(pred):
+        for r in recs[:nown]:
+            if pred(r):
+                return copy.deepcopy(r)
+        return None
+    r = pick(lambda r: r["fn"] == "klist" and r["ok"] and len(r["out"]) > 1)
+    if r:
+        r["out"][-1][3] += 1
+        badrecs.append((r, "sum_to_one"))
+    r = pick(lambda r: r["fn"] == "klist" and r["ok"] and r["sym"] and 1 < len(r["out"]) < r["n"][0] * r["n"][1] * r["n"][2])
+    if r:      # a retained point replaced by another one: an orbit twice, another one lost
+        r["out"][-1][:3] = r["out"][0][:3]
+        badrecs.append((r, "same_up_to_symmetry"))
+    r = pick(lambda r: r["fn"] == "divide" and len(r["out"]) > 1)
+    if r:
+        r["out"][0][0] = (r["out"][0][0] + 1) % (2 * r["n"][0] * r["nd"][0] ** r["L"])
+        badrecs.append((r, "same_up_to_symmetry"))
+    r = pick(lambda r: r["fn"] == "exclude" and len(r["out"]) < len(r["inp"]))
+    if r:
+        r["out"][0][4] -= 1
+        badrecs.append((r, "weight_kept"))
+    r = pick(lambda r: r["fn"] == "refine" and r["sym"] and len(r["after"]) > len(r["before"]))
+    if r:      # a merged point put back: two equivalent live points, weight of the class unchanged in total but split
+        r["after"][-1][4] += 1
+        badrecs.append((r, "weight_kept"))
+    r = pick(lambda r: r["fn"] == "tsplit")
+    if r:
+        r["out"][0][1] += 1
+        badrecs.append((r, "split_exact"))
+    r = pick(lambda r: r["fn"] == "tgrid" and len(r["out"]) > 3)
+    if r:
+        del r["out"][-1]
+        badrecs.append((r, "volume_kept"))
+    if len(badrecs) < 5 and not rep.violations and usable and not W.SKIPPED:
+        raise MachineryError(f"binding self-test: only {len(badrecs)} kinds of records to corrupt")
+    if badrecs:
+        _, b2 = ftable.validate_records("KMeshRec.tla", ftable.REC_CFG, [b for b, _ in badrecs], tag + "_selftest")
+        missed = [(b["fn"], c) for j, (b, c) in enumerate(badrecs) if c not in b2.get(j, [])]
+        if missed:
+            raise MachineryError(f"binding self-test failed: corrupted records accepted: {missed} (TLC: {b2})")
+        rep.part("binding_selftest", corrupted_records_rejected={str(k_): [c for c in v if not c.startswith("info_")] for k_, v in b2.items()})
     return rep.finish()
